@@ -66,6 +66,13 @@ def check_refit(case):
         X2, y2 = _fit(entry, fresh2, data, seed)
         d2 = R.same_fingerprint(ref, _fp(entry, fresh2, data, X2, y2, seed), exact=entry.exact)
         require(d2 is None, "same-seed:two-fits-differ", "two fresh clones fitted on the same data under the same NumPy seed differ: %s" % d2, f2)
+        # ... and an object built afresh from the configuration in force (a clone taken now would inherit whatever an earlier fit wrote into
+        # the hyper-parameters)
+        built = R.build(case["spec2"] if current == 1 else case["spec"])
+        Xb, yb = _fit(entry, built, data, seed)
+        db = R.same_fingerprint(got, _fp(entry, built, data, Xb, yb, seed), exact=entry.exact)
+        require(db is None, "refit:differs-from-newly-built" if step > 0 else "fit:differs-from-newly-built",
+                "after the history the instance differs from an object newly built with the same configuration and fitted on the same data: %s" % db, f2)
         # another instance of the same class fitted on OTHER data under another seed (two models alive in one process): what this
         # instance answers is its own business - module- or class-level state shared between instances shows here
         j = (i + 1) % len(case["datasets"])
